@@ -1,7 +1,7 @@
 use crate::engine::core::WalEntry;
 use crate::shared::config::CONFIG;
 use std::fs::{File, OpenOptions};
-use std::io::{BufRead, BufReader, BufWriter, ErrorKind, Write};
+use std::io::{BufRead, BufReader, BufWriter, ErrorKind, Read, Seek, SeekFrom, Write};
 use std::path::{Path, PathBuf};
 use tracing::{debug, info, warn};
 
@@ -76,11 +76,17 @@ impl InnerWalWriter {
             "Starting new WAL log file"
         );
 
-        let file = OpenOptions::new()
+        let mut file = OpenOptions::new()
             .create(true)
             .write(true)
             .append(true)
             .open(&self.current_path)?;
+
+        // A crash can leave the last line of a resumed log torn or without its newline:
+        // terminate it, or the next entry is fused with it and both are lost to recovery.
+        if Self::ends_without_newline(&self.current_path) {
+            file.write_all(b"\n")?;
+        }
 
         let writer = if CONFIG.wal.buffered {
             BufWriter::with_capacity(CONFIG.wal.buffer_size, file)
@@ -91,6 +97,16 @@ impl InnerWalWriter {
         self.file = Some(writer);
         self.entries_written = Self::count_entries(&self.dir);
         Ok(())
+    }
+
+    fn ends_without_newline(path: &Path) -> bool {
+        let Ok(mut file) = File::open(path) else {
+            return false;
+        };
+        let mut last = [0u8; 1];
+        file.seek(SeekFrom::End(-1)).is_ok()
+            && file.read_exact(&mut last).is_ok()
+            && last[0] != b'\n'
     }
 
     pub fn rotate_log_file(&mut self) -> std::io::Result<()> {
